@@ -28,6 +28,7 @@ inductive Instr (τ : Type) where
   | sget (slot : Nat) (res : Nat) (filter : Nat)
   | ret (v : Val)
   | raise (ty : String) (arg : Int)
+  | retev (slot : Nat)
   deriving Inhabited
 
 /-- handlers of `yield`: what the process does when an exception arrives at the yield
@@ -100,6 +101,9 @@ def execL (name prog : Nat) : Nat → List (Instr τ) → Burst τ SSt
     | .sget slot res f => .call (.sget res f) fun r => bindSlot slot r next
     | .ret v => .ret v
     | .raise ty arg => .raise ⟨ty, [.int arg]⟩
+    -- `return slots.get(slot)`: the generator returns the event object a slot holds (a launcher that hands the handle of the
+    -- process it started to its caller), `None` if the slot holds none; the value is an event like any other value
+    | .retev slot => withSlot slot (.ret .none) fun e => .ret (.ev e)
 
 def cont (progs : Progs τ) (st : SSt) : Burst τ SSt :=
   execL st.name st.prog st.pc (((progs.getD st.prog #[]).toList).drop st.pc)
